@@ -23,12 +23,19 @@ import (
 type Prov struct {
 	c        *Ctx
 	maxDepth int
+	local    bool // do not resolve parameters through call sites
 	callers  map[*ssa.Function][]*ssa.Call
 }
 
 func NewProv(c *Ctx) *Prov {
 	c.BuildSSA()
 	return &Prov{c: c, maxDepth: 5}
+}
+
+// NewLocalProv renders parameters as "param:name" (function-local provenance).
+func NewLocalProv(c *Ctx) *Prov {
+	c.BuildSSA()
+	return &Prov{c: c, maxDepth: 5, local: true}
 }
 
 // callSites finds static call sites of fn within its own package.
@@ -102,7 +109,7 @@ func (p *Prov) of(v ssa.Value, depth int, seen map[ssa.Value]bool) string {
 		if fn.Signature.Recv() != nil && idx == 0 {
 			return "recv" // the receiver is never resolved through callers: "recv" always means the method's own object
 		}
-		if depth < p.maxDepth && idx >= 0 {
+		if !p.local && depth < p.maxDepth && idx >= 0 {
 			cs := p.callSites(fn)
 			if len(cs) > 0 && len(cs) <= 6 {
 				var parts []string
